@@ -229,13 +229,19 @@ char * etcLdSoPreload_readFile ()
         printDiagValue("Error message", strerror(errno));
         fatalError("Unable to determine the size of the ld.so.preload file.");
     }
-    fileContentLen = (int) ftell(fileHandle);
-    if (fileContentLen == -1) {
+    long fileSize = ftell(fileHandle);
+    if (fileSize == -1) {
         printDiagValue("ld.so.preload path", filePath);
         printDiagValue("function called", "ftell(fh)");
         printDiagValue("Error message", strerror(errno));
         fatalError("Unable to determine the size of the ld.so.preload file.");
     }
+    if (fileSize >= INT_MAX) {
+        // The length is kept in an int here (and in an unsigned int in the callers): a larger size would wrap around and only a part of the file would be carried over
+        printDiagValue("ld.so.preload path", filePath);
+        fatalError("The ld.so.preload file is too large.");
+    }
+    fileContentLen = (int) fileSize;
     fseek(fileHandle, 0, SEEK_SET);
 
     fileContentBuf = malloc(fileContentLen+1);
